@@ -280,7 +280,7 @@ func (rr *RRSIG) signAsIs(k crypto.Signer, rrset []RR) error {
 	sigwire.Inception = rr.Inception
 	sigwire.KeyTag = rr.KeyTag
 	// For signing, lowercase this name
-	sigwire.SignerName = CanonicalName(rr.SignerName)
+	sigwire.SignerName = canonicalName(rr.SignerName)
 
 	// Create the desired binary blob
 	signdata := make([]byte, DefaultMsgSize)
@@ -370,8 +370,8 @@ func (rr *RRSIG) Verify(k *DNSKEY, rrset []RR) error {
 		return ErrKey
 	}
 
-	signerName := CanonicalName(rr.SignerName)
-	if !equal(signerName, k.Hdr.Name) {
+	signerName := canonicalName(rr.SignerName)
+	if signerName != canonicalName(k.Hdr.Name) {
 		return ErrKey
 	}
 
@@ -395,8 +395,8 @@ func (rr *RRSIG) Verify(k *DNSKEY, rrset []RR) error {
 	if h0 := rrset[0].Header(); h0.Class != rr.Hdr.Class ||
 		h0.Rrtype != rr.TypeCovered ||
 		uint8(CountLabel(h0.Name)) < rr.Labels ||
-		!equal(h0.Name, rr.Hdr.Name) ||
-		!strings.HasSuffix(CanonicalName(h0.Name), signerName) {
+		canonicalName(h0.Name) != canonicalName(rr.Hdr.Name) ||
+		!strings.HasSuffix(canonicalName(h0.Name), signerName) {
 
 		return ErrRRset
 	}
@@ -602,6 +602,35 @@ func (k *DNSKEY) publicKeyED25519() ed25519.PublicKey {
 	return keybuf
 }
 
+// canonicalName is CanonicalName for the names that are signed or compared here. A
+// letter may also be written as a \DDD escape (\065 is an A), which CanonicalName, and
+// any comparison of two names as text, takes for three digits: such an escape is
+// replaced by the lower case letter itself.
+func canonicalName(s string) string {
+	s = CanonicalName(s)
+	if !strings.Contains(s, "\\") {
+		return s
+	}
+	var sb strings.Builder
+	for i := 0; i < len(s); i++ {
+		switch {
+		case s[i] != '\\' || i+1 == len(s):
+			sb.WriteByte(s[i])
+		case !isDDD(s[i+1:]):
+			sb.WriteString(s[i : i+2])
+			i++
+		default:
+			if c := dddToByte(s[i+1:]) | ('a' - 'A'); 'a' <= c && c <= 'z' {
+				sb.WriteByte(c)
+			} else {
+				sb.WriteString(s[i : i+4])
+			}
+			i += 3
+		}
+	}
+	return sb.String()
+}
+
 type wireSlice [][]byte
 
 func (p wireSlice) Len() int      { return len(p) }
@@ -629,7 +658,7 @@ func rawSignatureData(rrset []RR, s *RRSIG) (buf []byte, err error) {
 			}
 		}
 		// RFC 4034: 6.2.  Canonical RR Form. (2) - domain name to lowercase
-		h.Name = CanonicalName(h.Name)
+		h.Name = canonicalName(h.Name)
 		// 6.2. Canonical RR Form. (3) - domain rdata to lowercase.
 		//   NS, MD, MF, CNAME, SOA, MB, MG, MR, PTR,
 		//   HINFO, MINFO, MX, RP, AFSDB, RT, SIG, PX, NXT, NAPTR, KX,
@@ -642,51 +671,51 @@ func rawSignatureData(rrset []RR, s *RRSIG) (buf []byte, err error) {
 		//	conversion.
 		switch x := r1.(type) {
 		case *NS:
-			x.Ns = CanonicalName(x.Ns)
+			x.Ns = canonicalName(x.Ns)
 		case *MD:
-			x.Md = CanonicalName(x.Md)
+			x.Md = canonicalName(x.Md)
 		case *MF:
-			x.Mf = CanonicalName(x.Mf)
+			x.Mf = canonicalName(x.Mf)
 		case *CNAME:
-			x.Target = CanonicalName(x.Target)
+			x.Target = canonicalName(x.Target)
 		case *SOA:
-			x.Ns = CanonicalName(x.Ns)
-			x.Mbox = CanonicalName(x.Mbox)
+			x.Ns = canonicalName(x.Ns)
+			x.Mbox = canonicalName(x.Mbox)
 		case *MB:
-			x.Mb = CanonicalName(x.Mb)
+			x.Mb = canonicalName(x.Mb)
 		case *MG:
-			x.Mg = CanonicalName(x.Mg)
+			x.Mg = canonicalName(x.Mg)
 		case *MR:
-			x.Mr = CanonicalName(x.Mr)
+			x.Mr = canonicalName(x.Mr)
 		case *PTR:
-			x.Ptr = CanonicalName(x.Ptr)
+			x.Ptr = canonicalName(x.Ptr)
 		case *MINFO:
-			x.Rmail = CanonicalName(x.Rmail)
-			x.Email = CanonicalName(x.Email)
+			x.Rmail = canonicalName(x.Rmail)
+			x.Email = canonicalName(x.Email)
 		case *MX:
-			x.Mx = CanonicalName(x.Mx)
+			x.Mx = canonicalName(x.Mx)
 		case *RP:
-			x.Mbox = CanonicalName(x.Mbox)
-			x.Txt = CanonicalName(x.Txt)
+			x.Mbox = canonicalName(x.Mbox)
+			x.Txt = canonicalName(x.Txt)
 		case *AFSDB:
-			x.Hostname = CanonicalName(x.Hostname)
+			x.Hostname = canonicalName(x.Hostname)
 		case *RT:
-			x.Host = CanonicalName(x.Host)
+			x.Host = canonicalName(x.Host)
 		case *SIG:
-			x.SignerName = CanonicalName(x.SignerName)
+			x.SignerName = canonicalName(x.SignerName)
 		case *NXT:
-			x.NextDomain = CanonicalName(x.NextDomain)
+			x.NextDomain = canonicalName(x.NextDomain)
 		case *PX:
-			x.Map822 = CanonicalName(x.Map822)
-			x.Mapx400 = CanonicalName(x.Mapx400)
+			x.Map822 = canonicalName(x.Map822)
+			x.Mapx400 = canonicalName(x.Mapx400)
 		case *NAPTR:
-			x.Replacement = CanonicalName(x.Replacement)
+			x.Replacement = canonicalName(x.Replacement)
 		case *KX:
-			x.Exchanger = CanonicalName(x.Exchanger)
+			x.Exchanger = canonicalName(x.Exchanger)
 		case *SRV:
-			x.Target = CanonicalName(x.Target)
+			x.Target = canonicalName(x.Target)
 		case *DNAME:
-			x.Target = CanonicalName(x.Target)
+			x.Target = canonicalName(x.Target)
 		}
 		// 6.2. Canonical RR Form. (5) - origTTL
 		wire := make([]byte, Len(r1)+1) // +1 to be safe(r)
